@@ -595,6 +595,37 @@ def rule_from_medium(cx, rule='C10.e'):
                'every successful calculation folds buffers filled by block.read in the same call (%d paths)' % nok if bad is None else bad)
 
 
+def rule_stored_from_medium(cx, rule='C10.e'):
+    """The other half of what validation compares: the STORED checksum is the content of the checksum cell on the medium now.
+    Every path of persistent_fetch_checksum that reports SUCCESS has read (checksum.address, checksum.size) with block.read
+    in this call - a value remembered in the instance from an earlier read answers for what the cell held then (a reset
+    that wiped the cell and failed later, a torn checksum write, an alteration of the medium go unnoticed)."""
+    ck = cx.ck
+    ps = cx.paths('persistent_fetch_checksum', rule)
+    if ps is None:
+        return
+    where = cx.where('persistent_fetch_checksum')
+    OK = C(cx.enums.get('PERSISTENT_ACCESS_SUCCESS'))
+    bad = None
+    nok = 0
+    for p in ps:
+        if p.end != 'return' or p.ret is None or p.ret[0] != 'struct':
+            continue
+        acc = dict(p.ret[2]).get('access')
+        if acc != OK:
+            continue
+        nok += 1
+        rd = [e for e in medium_calls(p) if e.name == 'block.read']
+        cell = [e for e in rd if L(addr_len(e)[0]) == L(fld('checksum', 'address')) and L(addr_len(e)[1]) == L(fld('checksum', 'size'))]
+        if not cell:
+            bad = bad or ('a path reports the stored checksum as fetched (SUCCESS) under {%s} without reading the checksum cell (checksum.address, checksum.size) from the medium in this call: '
+                          'the value is what the instance remembers, not what the medium holds' % '; '.join(fmt(c) for c in p.cond_terms()[-4:]))
+    if nok == 0:
+        return ck.broken(rule, 'persistent_fetch_checksum:from-medium', where, 'no path reporting SUCCESS found')
+    ck.verdict(bad is None, rule, 'persistent_fetch_checksum:from-medium', where,
+               'every successful fetch of the stored checksum reads the checksum cell in the same call (%d paths)' % nok if bad is None else bad)
+
+
 def rule_validate(cx):
     """C10.e"""
     ck = cx.ck
@@ -1031,6 +1062,7 @@ def run_c10(ck):
     rule_width(cx)
     rule_validate(cx)
     rule_from_medium(cx)
+    rule_stored_from_medium(cx)
     rule_reset(cx)
     # "after a successful store validation succeeds" needs every successful store to end with the checksum write of the
     # checksum just computed: the order rule of C11.b is an obligation of this property too
@@ -1060,6 +1092,7 @@ def run_c11(ck):
     ck.verdict = v2
     rule_validate(cx)
     rule_from_medium(cx)
+    rule_stored_from_medium(cx)
     ck.verdict = orig
     # a checksum compared, stored or fetched at less than its configured width lets a torn checksum write validate
     rule_width(cx, 'C11.v', ('persistent_match', 'persistent_store_checksum', 'persistent_fetch_checksum'))
